@@ -17,7 +17,10 @@
 
    Two switches select the code before / after the two repairs made for this project:
      bounds = false : readString and decodeMemberAssignmentV0 as in the unrepaired tree (finding F1)
-     bounds = true  : every length / count is checked against the bytes remaining before [make]
+     bounds = true  : every length / count is checked against the bytes remaining before [make] (repair eb5a1a8), and
+                      the assignment map is not pre-sized from the wire at all (second repair; the clamp of eb5a1a8,
+                      hint = min(numTopics, bytes left / 6), still bought 8 nominal bytes - 12 measured - of map per
+                      byte of message for topics that were merely announced: kept below as [make_topics_clamped])
      macc   = false : the group-metadata path never consults the allow/deny lists (finding F2)
      macc   = true  : acceptConsumerGroup is tested right after the group name has been read
    [process_message] (both switches on) is the model of the code in /repo now. *)
@@ -99,7 +102,8 @@ Definition read_string (bounds : bool) : dec (list Z) :=
     | Some (n, r) =>
         if n =? -1 then DOk [] r []
         else if bounds then
-          (* repaired: if strlen < 0 || int(strlen) > buf.Len() { return "", errors.New("string underflow") } *)
+          (* repaired: if strlen < 0 || int(strlen) > buf.Len() { return "", errors.New("string underflow") };
+             then string(buf.Next(strlen)): one allocation of strlen bytes *)
           if (n <? 0) || (blen r <? n) then DErr []
           else DOk (take n r) (drop n r) [n]
         else
@@ -226,21 +230,35 @@ Fixpoint topics_loop (bounds : bool) (fuel : nat) (count : Z) (m : amap) : dec a
               topics_loop bounds f (count - 1) (amap_set name ps m)) b
          end.
 
-(* numTopics, then topics = make(map[string][]int32, numTopics) *)
+(* numTopics, then the map *)
 Definition make_topics (bounds : bool) (nt : Z) : dec unit :=
   fun b =>
     if bounds then
-      (* repaired: if numTopics < -1 { error }; the size hint is min(numTopics, buf.Len()/6), at least 0 *)
-      if nt <? -1 then DErr [] else DOk tt b [map_entry_bytes * Z.max 0 (Z.min nt (blen b / 6))]
+      (* repaired: if numTopics < -1 { error }; topics = make(map[string][]int32) - no size hint: the map grows as
+         topics are actually decoded *)
+      if nt <? -1 then DErr [] else DOk tt b []
     else
-      (* a negative hint is ignored by the runtime *)
+      (* unrepaired: make(map[string][]int32, numTopics); a negative hint is ignored by the runtime *)
       if nt <? 0 then DOk tt b [] else DOk tt b [map_entry_bytes * nt].
+
+(* the intermediate state of the code (after eb5a1a8, before the second repair): the hint was clamped by what the
+   remaining bytes could hold, min(numTopics, buf.Len()/6), at least 0.  Documentation only. *)
+Definition make_topics_clamped (nt : Z) : dec unit :=
+  fun b => if nt <? -1 then DErr [] else DOk tt b [map_entry_bytes * Z.max 0 (Z.min nt (blen b / 6))].
 
 (* decodeMemberAssignmentV0 *)
 Definition decode_assignment (bounds : bool) : dec amap :=
   nt <- d_i32 ;;
   _ <- make_topics bounds nt ;;
   m <- (fun b => topics_loop bounds (S (length b)) nt [] b) ;;
+  ud <- d_i32 ;;
+  _ <- skip_pos ud ;;
+  ret m.
+
+Definition decode_assignment_clamped : dec amap :=
+  nt <- d_i32 ;;
+  _ <- make_topics_clamped nt ;;
+  m <- (fun b => topics_loop true (S (length b)) nt [] b) ;;
   ud <- d_i32 ;;
   _ <- skip_pos ud ;;
   ret m.
